@@ -206,17 +206,25 @@ class IgnYaml(YAMLParser):
     ignore_lines = ("warning:", "note", "#!")
 
 
-def canon(v):
-    if isinstance(v, dict):
-        return "{" + ",".join(sorted(canon(k) + ":" + canon(x) for k, x in v.items())) + "}"
-    if isinstance(v, (list, tuple)):
-        return type(v).__name__[0] + "[" + ",".join(canon(x) for x in v) + "]"
+def canon(v, _stack=()):
+    """canonical rendering of a loaded value (dict order ignored; recursive structures from YAML aliases closed
+    with a marker)"""
+    if isinstance(v, (dict, list, tuple, set, frozenset)):
+        if id(v) in _stack:
+            return "<cycle>"
+        st = _stack + (id(v),)
+        if isinstance(v, dict):
+            return "{" + ",".join(sorted(canon(k, st) + ":" + canon(x, st) for k, x in v.items())) + "}"
+        if isinstance(v, (list, tuple)):
+            return type(v).__name__[0] + "[" + ",".join([canon(x, st) for x in v]) + "]"
+        return "set(" + ",".join(sorted(canon(x, st) for x in v)) + ")"
     if v is None or isinstance(v, (bool, int, float)):
-        return type(v).__name__[0] + repr(v)
+        try:
+            return type(v).__name__[0] + repr(v)
+        except ValueError:          # int too large to print (str conversion limit)
+            return "i#%d" % v.bit_length()
     if isinstance(v, str):
         return json.dumps(v)
-    if isinstance(v, (set, frozenset)):
-        return "set(" + ",".join(sorted(canon(x) for x in v)) + ")"
     return type(v).__name__ + ":" + repr(v)
 
 
@@ -413,6 +421,75 @@ YAML_EMPTY = [[], [""], ["# only a comment"], ["---"], ["~"], ["null"], ["   ", 
 IGNORABLE = ["WARNING: something happened", "  Note that x", "warning:", "Notes: []", "#!/bin/sh", "NOTE"]
 
 
+# ---- well-formed documents whose TYPED SCALARS cannot be constructed (PyYAML's constructors raise plain
+# ValueError / AttributeError / KeyError, not YAMLError), plus neighbours that can, anchors / aliases / merge keys,
+# tabs and flow edge cases, explicit tags, deep flow nesting.  The oracle never predicts: it asks the library.
+YAML_TYPED_BAD = ["2019-02-30", "2019-13-01", "2001-12-14t25:61:61", "2001-12-14 21:59:43.10 -25:99", "0000-01-01",
+                  "2019-02-29", "2023-04-31 10:00:00", "2023-01-01 24:00:00", "2023-01-01T23:59:60Z", "!!int abc",
+                  "!!float abc", "!!timestamp nope", "!!bool maybe", "!!int 0b12", "!!int 0x", "!!float 1.2.3",
+                  "!!timestamp 2019-02-30", "!!int ''", "!!int 1:99x", "9" * 5000, "!!int 1" + "0" * 4400, "-0b" + "1" * 20000]
+YAML_TYPED_OK = ["2020-02-29", "2019-12-31 23:59:59", "2001-12-14t21:59:43.10-05:00", "!!binary aGk=", "!!binary '@@@'",
+                 "1e999999", "!!float 1e99999999999", ".inf", "-.INF", ".nan", "1_000", "190:20:30", "0o8", "0x", "!!str 123",
+                 "!!null x", "99999-01-01", "!!set {a}", "!!omap [a: 1]", "~", "!!int 0b11", "!!bool yes", "!!timestamp 2019-02-28",
+                 "9" * 4000, "1.5e3", "0x1F", "010", "+12", "y", "No"]
+YAML_STRUCT = ["a: &a [*a]", "&a [*a, *a]", "a: &x 1\nb: &x 2\nc: *x", "a: *undefined", "<<: 1", "a:\n  <<: [1, 2]",
+               "b: &b {x: 1}\na:\n  <<: *b\n  y: 2", "b: &b {x: 1}\na:\n  <<: [*b, 3]", "a:\n  <<: *nope",
+               "b: &b {x: 1}\nc: &c {y: 2}\na:\n  <<: [*b, *c]", "a: &a [x, x]\nb: &b [*a, *a]\nc: [*b, *b]",
+               "a: &a {k: *a}", "a:\t1", "{a: 1,\t b: 2}", "a:\n\tb: 1", "- \t- x", "{a: 1, }", "[1, , 2]", "[1,2", "{a: [}",
+               "{[1, 2]: x}", "? [1, 2]\n: x", "? {a: 1}\n: x", "{? a}", "[a: 1]", "{a}", "a: 'x'y", "x: !!seq {a: 1}",
+               "x: !!map [1]", "!!python/tuple [1]", "x: !!python/object:os.system {}", "!!python/name:os.system ''",
+               "x: !unknown y", "!!str\n- a", "x: !!pairs [a: 1, a: 2]", "x: !!set [a]", "x: !!omap {a: 1}", "x: !!omap [1]",
+               "{a: 1, a: 2}", "? !!int abc\n: 1", "- !!float [1]", "x: !!int {a: 1}", "x: !!timestamp [2019]"]
+YAML_PLACE = ["%s", "k: %s", "- %s", "a:\n  b:\n    - 1\n    - %s", "a:\n  - b: %s\n    c: 2", "{a: [1, {b: [2, {c: %s}]}]}",
+              "[%s, 2]", "%s: v", "? %s\n: v", "- - - %s", "x: &a %s\ny: *a", "---\nk: %s\n...", "k: %s # comment",
+              "a: 1\nb:\n  c: {d: %s}"]
+
+
+def gen_yaml_typed_case(rng):
+    r = rng.random()
+    if r < 0.62:
+        leaf = rng.choice(YAML_TYPED_BAD) if rng.random() < 0.65 else rng.choice(YAML_TYPED_OK)
+        text = rng.choice(YAML_PLACE) % leaf
+    elif r < 0.9:
+        text = rng.choice(YAML_STRUCT)
+    else:
+        d = rng.choice([3, 40, 150])
+        leaf = rng.choice(YAML_TYPED_BAD[:19] + YAML_TYPED_OK[:8])
+        text = ("[" * d + leaf + "]" * d) if rng.random() < 0.5 else ("{a: " * d + leaf + "}" * d)
+    if rng.random() < 0.35:
+        return {"op": "yaml", "str": True, "ign": False, "base": text, "content": text, "intent": "typed-str"}
+    base = text.split("\n")
+    content = list(base)
+    ign = rng.random() < 0.25
+    if ign:
+        for _ in range(rng.randint(1, 2)):
+            content.insert(rng.randint(0, len(content)), rng.choice(IGNORABLE))
+    return {"op": "yaml", "ign": ign, "base": base, "content": content, "intent": "typed"}
+
+
+JSON_TYPED = ["9" * 5000, "-" + "9" * 4400, "9" * 4300, "1E400", "1e999999", "-1e-999999", "NaN", "-Infinity", "\"\\ud800\"",
+              "\"\\u0000\"", "1.0e+", "0x10", "01", "1_000", "+1", ".5", "1.", "\"\\x41\"", "'a'", "True", "nul", "1" + "0" * 4299,
+              "1." + "0" * 5000, "\"\\udc00\\ud800\"", "-", "--1", "1e", "\"\t\""]
+JSON_PLACE = ["%s", "[%s]", "{\"a\": %s}", "{\"a\": [1, {\"b\": [%s]}]}", "{\"a\": 1, \"a\": %s}", "[\n  %s\n]",
+              "{\n \"k\": [\n  %s,\n  2\n ]\n}", "[1, %s"]
+
+
+def gen_json_typed_case(rng):
+    leaf = rng.choice(JSON_TYPED)
+    r = rng.random()
+    if r < 0.85:
+        text = rng.choice(JSON_PLACE) % leaf
+    else:
+        d = rng.choice([3, 40, 150])
+        text = "[" * d + leaf + "]" * d
+    if rng.random() < 0.35:
+        return {"op": "json", "content": text, "noise": 0, "intent": "typed-str"}
+    lines = text.split("\n")
+    if rng.random() < 0.25:
+        lines = [rng.choice(["Loading plugins...", "WARNING: running as root", "--- output ---"])] + lines
+    return {"op": "json", "content": lines, "noise": 0, "intent": "typed"}
+
+
 def gen_yaml_case(rng):
     r = rng.random()
     ign = rng.random() < 0.4
@@ -438,6 +515,8 @@ def gen_yaml_case(rng):
 def yaml_line(case):
     ignore = list(IgnYaml.ignore_lines) if case["ign"] else []
     c = case["content"]
+    if isinstance(c, str):
+        return "yamls\t" + enc(c) + "\t" + "\t".join(table_fields([(c, lib_yaml(c))]))
     entries = [("\n".join(c), lib_yaml("\n".join(c))), ("\n".join(case["base"]), lib_yaml("\n".join(case["base"])))]
     return "yaml\t" + "\t".join(fields_list(ignore) + fields_list(c) + table_fields(entries))
 
@@ -446,7 +525,7 @@ def yaml_oracle(case, out):
     if out[0] == "EXC":
         return "exception type %s (neither SkipComponent nor ParseException)" % out[1]
     # with ignore_lines the inserted lines are dropped: the document is `base`
-    want = lib_yaml("\n".join(case["base"]))
+    want = lib_yaml(case["base"] if isinstance(case["base"], str) else "\n".join(case["base"]))
     if want[0] == "N":
         return None if out[0] == "SKIP" else "empty/null document did not signal a skip"
     if want[0] in "MQ":
@@ -880,7 +959,9 @@ def eval_case(case):
         out = doc_impl(PlainJson, c, split=False, strip=False) if isinstance(c, str) else doc_impl(PlainJson, list(c))
         return out, [doc_canon(out)], [json_line(case)], json_oracle(case, out)
     if op == "yaml":
-        out = doc_impl(IgnYaml if case["ign"] else PlainYaml, list(case["content"]))
+        c = case["content"]
+        out = (doc_impl(PlainYaml, c, split=False, strip=False) if isinstance(c, str)
+               else doc_impl(IgnYaml if case["ign"] else PlainYaml, list(c)))
         return out, [doc_canon(out)], [yaml_line(case)], (yaml_oracle(case, out), None)
     if op == "get":
         out = get_impl(case)
@@ -990,13 +1071,28 @@ def run(chk):
     # ---- 4. JSON
     def doc_tag(prefix):
         def f(case, out):
-            return ["%s:%s" % (prefix, out[0]), "%s:intent=%s" % (prefix, case.get("intent", "ign" if case.get("ign") else "plain"))]
+            tags = ["%s:%s" % (prefix, out[0]), "%s:intent=%s" % (prefix, case.get("intent", "ign" if case.get("ign") else "plain"))]
+            if case.get("intent", "").startswith("typed"):
+                c = case["content"] if prefix == "json" else case["base"]
+                lib = (lib_json if prefix == "json" else lib_yaml)(c if isinstance(c, str) else "\n".join(c))
+                tags.append("%s:typed:library=%s" % (prefix, {"F": "raises", "N": "null", "S": "scalar"}.get(lib[0], "container")))
+                if lib[0] == "F":
+                    text = c if isinstance(c, str) else "\n".join(c)
+                    try:
+                        json.loads(text) if prefix == "json" else yaml.load(text, Loader=SafeLoader)
+                    except BaseException as e:  # noqa
+                        base = ("YAMLError" if isinstance(e, yaml.YAMLError) else "JSONDecodeError"
+                                if isinstance(e, json.JSONDecodeError) else "other")
+                        tags.append("%s:typed:raises=%s/%s" % (prefix, base, type(e).__name__))
+            return tags
         return f
     cases = [gen_json_case(rng) for _ in range(2500 * mult)]
     for _ in range(250 * mult):
         c = gen_json_case(rng)
         cases.append({"op": "json", "content": "\n".join(c["content"]), "noise": 0, "intent": "str"})
     cases.append({"op": "json", "content": ["[" * 100000], "noise": 0, "intent": "deep"})
+    cases.append({"op": "json", "content": "[" * 100000, "noise": 0, "intent": "deep"})
+    cases += [gen_json_typed_case(rng) for _ in range(400 * mult)]
     for c in cases:
         chk.case(("json", json.dumps(c, sort_keys=True)), bool(c["content"]))
     run_stream(chk, "json", cases, doc_tag("json"))
@@ -1004,6 +1100,11 @@ def run(chk):
 
     # ---- 5. YAML
     cases = [gen_yaml_case(rng) for _ in range(1500 * mult)]
+    cases += [gen_yaml_typed_case(rng) for _ in range(1500 * mult)]
+    for _ in range(150 * mult):     # ordinary documents as str content
+        c = gen_yaml_case(rng)
+        t = "\n".join(c["base"])
+        cases.append({"op": "yaml", "str": True, "ign": False, "base": t, "content": t, "intent": "str"})
     for c in cases:
         chk.case(("yaml", json.dumps(c, sort_keys=True)), bool(c["content"]))
     run_stream(chk, "yaml", cases, doc_tag("yaml"))
